@@ -1,6 +1,8 @@
 """Maps a refuted obligation to concrete candidates run against the real code (DESIGN 2.2):
 first inputs suggested by the counter-model, then a seeded search over the input family the
 obligation's contract quantifies over.  Whatever fails is replayed from the replay file."""
+import itertools
+import os
 import random
 
 from props.common import try_candidates
@@ -40,7 +42,21 @@ def reader_candidates(o, seed):
         data = streams.adversarial_stream(rnd) if i % 3 else b"".join(x[1] for x in streams.wellformed_stream(rnd))
         cuts = [rnd.choice([None, None, None, 0, 1, 2, 3, 5]) for _ in range(rnd.randrange(0, 25))] if i % 2 else []
         yield {"data": data.hex(), "cuts": cuts, "quitonerror": rnd.choice([0, 1, 2]), "validate": rnd.choice([1, 1, 0]),
-               "parsed": rnd.choice([True, True, False, 0, 1]), "handler": rnd.choice([True, False])}
+               "parsed": rnd.choice([True, True, False, 0, 1]), "handler": rnd.choice([True, False, "returns_true"]),
+               "stream_kind": rnd.choice(["plain", "plain", "seekable", "bad_tell"])}
+
+
+def damaged_stream_candidates(seed):
+    """Valid frames with damaged ones in between, on a seekable stream, every option combination."""
+    from spec import streams
+    rnd = random.Random(seed)
+    for k in range(60):
+        parts = []
+        for _ in range(rnd.randrange(2, 6)):
+            f = streams.frame(streams.good_payloads(rnd))
+            parts.append(streams.damage(f, rnd) if rnd.random() < 0.5 else f)
+        yield {"data": b"".join(parts).hex(), "cuts": [], "quitonerror": rnd.choice([0, 1, 2]), "validate": rnd.choice([1, 1, 0]),
+               "parsed": rnd.choice([True, True, False]), "handler": rnd.choice([True, False]), "stream_kind": "seekable", "no_rewind": True}
 
 
 def complete_candidates(o, seed):
@@ -51,6 +67,14 @@ def complete_candidates(o, seed):
     f = streams.frame(streams.P1005)
     for q in (0, 1):
         yield {"items": [["ubx", big.hex()], ["rtcm", f.hex()]], "quitonerror": q, "validate": 1, "parsed": True, "handler": True}
+    # many damaged frames in a row, then good ones: nothing may make a reader give up or change its mind after N errors
+    for n in (60, 300):
+        items = []
+        for _ in range(n):
+            items.append(["damaged", streams.damage(streams.frame(streams.good_payloads(rnd)), rnd).hex()])
+        items += [["rtcm", f.hex()], ["damaged", streams.damage(f, rnd).hex()], ["rtcm", f.hex()]]
+        for q in (0, 1):
+            yield {"items": items, "quitonerror": q, "validate": 1, "parsed": True, "handler": True}
     for i in range(500):
         items = streams.wellformed_stream(rnd, kinds=("rtcm", "rtcm", "filler", "ubx", "nmea", "noise", "rtcm1"))
         out = []
@@ -60,7 +84,8 @@ def complete_candidates(o, seed):
             else:
                 out.append([k, b.hex()])
         yield {"items": out, "quitonerror": rnd.choice([0, 1, 2]), "validate": rnd.choice([1, 1, 0]),
-               "parsed": rnd.choice([True, True, False, 0, 1]), "handler": rnd.choice([True, True, False, "falsy"])}
+               "parsed": rnd.choice([True, True, False, 0, 1]), "handler": rnd.choice([True, True, False, "falsy", "returns_true"]),
+               "stream_kind": rnd.choice(["plain", "plain", "seekable", "bad_tell"])}
 
 
 def parse_candidates(o, seed):
@@ -74,6 +99,27 @@ def parse_candidates(o, seed):
         if f:
             yield {"message": f.hex(), "validate": 1}
             yield {"message": f.hex(), "validate": 0}
+    from spec import encoder as _enc, refdecode as _rd
+    for ident in list(_rd.tables()[2])[::4]:  # MSM frames under every validate / label option combination
+        p = _enc.complete_message(ident, rnd, "random")
+        if p is not None:
+            f = streams.frame(p)
+            for v in (0, 1):
+                for lm in (2, 1, 0):
+                    yield {"message": f.hex(), "validate": v, "labelmsm": lm}
+    for i in range(6):  # the frame's own checksum bytes also occur inside its payload
+        f = streams.frame_with_crc_inside(rnd, rnd.choice([8, 19, 40, 200]))
+        if f:
+            yield {"message": f.hex(), "validate": 1}
+            yield {"message": f.hex(), "validate": 0}
+    for i in range(30):
+        f = streams.frame(streams.good_payloads(rnd))
+        yield {"message": (f[:-3] + b"\x00\x00\x00").hex(), "validate": 1}  # checksum field blanked
+        for suffix in (b"\r\n", b"\n", b"\x00"):
+            yield {"message": (f + suffix).hex(), "validate": 1}  # a valid frame with something appended: CRC over the whole buffer fails
+        g = bytearray(f)
+        g[3] ^= rnd.choice([0x80, 0x40, 0x20, 0x10, 0x01])  # message-number bits: the damaged number is usually not a listed one
+        yield {"message": bytes(g).hex(), "validate": 1}
     for i in range(300):
         p = streams.good_payloads(rnd)
         f = streams.frame(p)
@@ -123,6 +169,14 @@ def message_candidates(o, seed, focus=None):
         if p is not None:
             for lm in (0, True, 3):
                 yield {"payload": p.hex(), "labelmsm": lm}
+    # text fields carrying non-ASCII UTF-8 code units (1029: 72 header bits = 9 bytes, DF139 = number of code units, then the text)
+    if not focus or focus("1029"):
+        base = encoder.complete_message("1029", rnd, "random")
+        if base is not None and len(base) >= 9:
+            for text in ("\u00e9", "caf\u00e9", "\u0410\u03b8\u03ae\u03bd\u03b1", "\u00c3\u00a9", "\u20ac5", "a\u00e9b\u00fc", "\U0001F6F0"):
+                t = text.encode("utf-8")
+                yield {"payload": (base[:7] + bytes([len(text) & 0x7F]) + bytes([len(t)]) + t).hex()[:2 * 9 + 2 * len(t)] if False else
+                       (base[:8] + bytes([len(t)]) + t).hex()}
     p0, p1, ln = model_get(o, "p0"), model_get(o, "p1"), model_get(o, "len")
     if p0 is not None and p1 is not None and ln is not None and 0 <= ln <= 1023:
         yield {"payload": (bytes([p0 & 255, p1 & 255]) + bytes(max(ln - 2, 0)))[:ln].hex()}
@@ -201,6 +255,12 @@ def generic_replay(o, seed):
     """Dispatch on the function the obligation belongs to."""
     if o["name"].startswith("frame."):
         return frame_replay(o, seed)
+    if o["name"].startswith(("tables.", "names.")):
+        from props import C10
+        return C10.replay(o, seed)
+    if o["name"].startswith("api.constant"):
+        return {"reproduced": True, "spec": "table_entry", "input": {"obligation": o["name"]}, "expected": "documented constant value",
+                "observed": o.get("model"), "key": o["name"]}
     if o["name"].startswith("api."):
         from spec import streams, encoder, refdecode
         rnd = random.Random(seed)
@@ -227,12 +287,25 @@ def generic_replay(o, seed):
              "client.assignments_leave_message_unchanged": M_ + ".__setattr__",
              "client.parse_ignores_checksum_when_not_validating": "pyrtcm.rtcmreader.RTCMReader.parse"}
         n = m.get(n, n)
+    if n.endswith(("rtcmhelpers.calc_crc24q", "rtcmhelpers.crc2bytes")):
+        from props.common import byte_strings
+        spec = n.rsplit(".", 1)[1]
+        return try_candidates(spec, ({"message": m.hex()} for m in byte_strings(seed)), key=lambda i, r, spec=spec: spec)
+    if n.endswith("rtcmhelpers.len2bytes"):
+        return try_candidates("len2bytes", ({"length": k} for k in (0, 1, 2, 255, 256, 257, 511, 512, 1022, 1023, 1024, 65535, 65536)), key=lambda i, r: "len2bytes")
     if "socketwrapper" in n:
         from props import C11, C12
         r = C11.replay(o, seed)
         return r if r.get("reproduced") or not ("dechunk" in n or "chunked" in o["name"]) else C12.replay(o, seed)
     if n.endswith("RTCMReader.parse"):
         return try_candidates("parse_static", parse_candidates(o, seed), key=lambda i, r: "parse")
+    if n.endswith("RTCMReader.__init__"):
+        from spec import streams
+        rnd = random.Random(seed)
+        sh = ({"data": b"".join(x[1] for x in streams.wellformed_stream(rnd)).hex(), "readers": rnd.choice([2, 3])} for _ in range(30))
+        r = try_candidates("shared_stream_readers", sh, key=lambda i, r: "shared-raw-stream")
+        if r.get("reproduced"):
+            return r
     if n.endswith(("RTCMReader.__iter__", "RTCMReader.__next__")):
         from spec import streams
         rnd = random.Random(seed)
@@ -249,6 +322,9 @@ def generic_replay(o, seed):
         cands = reader_candidates(o, seed)
         if "bytearray-stream" in (o.get("unit") or "") + o["name"]:
             cands = (dict(c, bytearray=True) for c in cands)
+        if os.environ.get("PYVC_PROPERTY") in ("C05", "C17"):  # these two state how many bytes a (damaged) frame takes
+            dmg = damaged_stream_candidates(seed)
+            cands = itertools.chain(dmg, (dict(c, no_rewind=True) for c in cands))
         r = try_candidates("reader_safety", cands, key=lambda i, r: "reader")
         if r.get("reproduced"):
             return r
@@ -267,6 +343,10 @@ def generic_replay(o, seed):
         for tail in (b"\x01\x23", b"\x0f\xf0\xaa", b"\x00\x01"):  # same integer value, different length (history-dependent caches)
             cands += [{"payload": (b"\x00" * k + tail).hex()} for k in (0, 1, 2, 0)]
         cands += [{"payload": "d300020123aabbcc"}, {"payload": "d30003012345aabbcc"}]  # payloads that look like frames
+        for _ in range(4):
+            f = streams.frame_with_crc_inside(rnd, rnd.choice([8, 19, 40]))
+            if f:
+                cands.append({"payload": f[3:-3].hex()})
         cands += [{"payload": streams.good_payloads(rnd).hex()} for _ in range(60)]
         # the other label option; payload bytes that are special in format strings and string literals
         for tail in (b"{}", b"{", b"}}", b"{0}", b"%s", b"\\", b"'", b"\"", b"\n\r"):
@@ -290,5 +370,6 @@ def generic_replay(o, seed):
         from spec import streams, encoder
         rnd = random.Random(seed)
         cands = [{"payload": p.hex()} for _, p in encoder.corpus(seed, per_type=1, patterns=("random",))]
+        cands += [dict(c, labelmsm=lm) for c in cands[::3] for lm in (0, 2, 3, False)]
         return try_candidates("immutable", iter(cands), key=lambda i, r: "immutable")
     return None
